@@ -3,7 +3,7 @@
    enabled (= advertised) method of every built configuration, and hence that no code exchange completes
    under a method that is not enabled.  Used by Props/C03.v, Props/C11.v and Props/C19.v. *)
 From Verif Require Import Base Scope Types Prog Pop Token Authorize System Config Discovery Required Run Monitors
-  Hoare Tactics OneShot HistProps ConfigProofs C19Proofs.
+  Hoare Tactics OneShot HistProps ConfigProofs C02Proofs C02Handlers C19Proofs SessInv.
 From Verif.Corr Require Import C11 C11Eff.
 Local Open Scope N_scope.
 
@@ -125,3 +125,153 @@ Section Built.
     rewrite EF in EF'. injection EF' as <-. destruct (K EN EC ML) as [m [A V]]. rewrite (NA m A) in V. discriminate.
   Qed.
 End Built.
+
+(* ---- in every reachable state the method recorded in a stored session is absent or enabled ---- *)
+Lemma vo_method cfg p c : validate_optionals cfg p c = None -> method_listed cfg p.
+Proof. intros H. exact (proj2 (proj2 (vo_none cfg p c H))). Qed.
+Lemma vp_method cfg p c : validate_params cfg p c = None -> method_listed cfg p.
+Proof. intros H. apply vp_none_vo in H as [H _]. eapply vo_method; eauto. Qed.
+Local Transparent validate_in_out.
+Lemma vio_method cfg i o c : validate_in_out cfg i o c = None -> method_listed cfg (merge_params i o).
+Proof.
+  unfold validate_in_out. destruct (andb _ _); [discriminate|].
+  destruct (validate_params cfg (merge_params i o) c) eqn:E; [discriminate|]. intros _. eapply vp_method; eauto.
+Qed.
+Local Opaque validate_in_out.
+
+Section Handlers.
+  Variable w : world.
+  Definition sess_ok (s : asession) : Prop := method_listed (w_cfg w) (a_params s).
+  Notation rgm := (rgP sess_ok).
+
+  Local Opaque contains_all_scopes are_scopes_allowed validate_binding validate_pkce refresh_binding
+       validate_params validate_optionals validate_in_out merge_params mint make_token
+       validate_jwt set_pop_jkt set_pop_x5t.
+
+  Lemma quiet_rgm {A} (p : prog A) : quiet p -> rgm p.
+  Proof.
+    induction p as [a|c k IH|o p IH]; cbn; auto. intros [G H]. split; [destruct c; cbn in *; tauto|]. intros r _. apply IH; auto.
+  Qed.
+
+  Ltac mcrunch K :=
+    repeat (cbn; try match goal with
+                | |- True => exact I
+                | |- _ /\ _ => split
+                | |- forall _, _ => intro
+                | |- sess_ok _ => exact K
+                | |- method_listed _ _ => exact K
+                end; try break_goal).
+
+  Lemma authenticate_rgm n now s pol : sess_ok s -> rgm (authenticate w n now s pol).
+  Proof.
+    intros OK. unfold authenticate, save_a. unfold sess_ok in *.
+    destruct pol; cbn.
+    - apply rgP_bind; [apply quiet_rgm, get_client_quiet|]. intros [c|]; [|exact I]. mcrunch OK.
+    - mcrunch OK.
+    - mcrunch OK.
+    - mcrunch OK.
+  Qed.
+  Lemma start_session_rgm n now c s r : sess_ok s -> rgm (start_session w n now c s r).
+  Proof.
+    intros OK. unfold start_session. repeat (break_goal; [exact I|]). cbn.
+    apply authenticate_rgm. exact OK.
+  Qed.
+  Lemma init_auth_rgm n now r : rgm (init_auth w n now r).
+  Proof.
+    unfold init_auth. destruct (is_nil (ar_client r)); [exact I|].
+    apply rgP_bind; [apply quiet_rgm, get_client_quiet|]. intros [c|]; [|exact I].
+    break_goal; [exact I|]. break_goal.
+    - break_goal; [exact I|]. cbn. split; [exact I|]. intros rp Hr. destruct rp; try exact I. cbn in Hr.
+      destruct (negb (ideq (a_client s) (ar_client r))); [cbn; split; [exact I|]; intros rd _; destruct rd; exact I|].
+      destruct (geb now (a_expires s)); [cbn; split; [exact I|]; intros rd _; destruct rd; exact I|].
+      destruct (validate_in_out _ _ _ _) eqn:EV; [cbn; split; [exact I|]; intros rd _; destruct rd; exact I|].
+      apply rgP_bind; [|intros; exact I]. apply start_session_rgm.
+      destruct (is_fapi (cf_profile (w_cfg w))); [exact Hr|]. unfold sess_ok. cbn. eapply vio_method; eauto.
+    - destruct (validate_params _ _ _) eqn:EV; [exact I|].
+      apply rgP_bind; [|intros; exact I]. apply start_session_rgm.
+      pose proof (vp_method _ _ _ EV) as K. unfold sess_ok, method_listed in *. cbn. exact K.
+  Qed.
+  Lemma continue_auth_rgm n now r : rgm (continue_auth w n now r).
+  Proof.
+    unfold continue_auth. destruct (is_nil (cb_id r)); [exact I|].
+    cbn. split; [exact I|]. intros rp Hr. destruct rp; try exact I. cbn in Hr.
+    destruct (geb now (a_expires s)); [exact I|].
+    apply rgP_bind; [apply authenticate_rgm; exact Hr|].
+    intros [o|e]; [exact I|]. apply quiet_rgm. apply quiet_bind; [apply get_client_quiet|]. intros [c|]; cbn; auto.
+  Qed.
+  Lemma push_auth_rgm n now r : rgm (push_auth w n now r).
+  Proof.
+    unfold push_auth, save_a. destruct (negb _); [exact I|].
+    apply rgP_bind; [apply quiet_rgm, authenticated_quiet|]. intros [c|]; [|exact I].
+    destruct (negb (is_nil (p_request_uri (pr_params r)))); [exact I|].
+    assert (K : match (if is_fapi (cf_profile (w_cfg w)) then validate_params (w_cfg w) (pr_params r) (client_for_par (w_cfg w) c (p_redirect (pr_params r)))
+                       else validate_optionals (w_cfg w) (pr_params r) (client_for_par (w_cfg w) c (p_redirect (pr_params r)))) with
+                None => method_listed (w_cfg w) (pr_params r) | _ => True end).
+    { destruct (is_fapi _).
+      - destruct (validate_params _ _ _) eqn:E; [exact I|]. eapply vp_method; eauto.
+      - destruct (validate_optionals _ _ _) eqn:E; [exact I|]. eapply vo_method; eauto. }
+    destruct (if is_fapi (cf_profile (w_cfg w)) then _ else _) as [[e|e p]|]; try exact I.
+    unfold sess_ok. mcrunch K.
+  Qed.
+  Lemma init_back_auth_rgm n now r : rgm (init_back_auth w n now r).
+  Proof.
+    unfold init_back_auth, save_a. destruct (negb _); [exact I|].
+    apply rgP_bind; [apply quiet_rgm, authenticated_quiet|]. intros [c|]; [|exact I].
+    repeat (break_goal; [exact I|]).
+    destruct (validate_optionals _ _ _) as [[e|e p]|] eqn:EV; try exact I.
+    apply vo_method in EV. unfold sess_ok. mcrunch EV.
+  Qed.
+
+  Theorem handler_rgm n now o : rgm (handler w n now o).
+  Proof.
+    unfold handler. destruct o; try (apply rgP_bind; [|intros; exact I]).
+    - apply init_auth_rgm. - apply continue_auth_rgm. - apply push_auth_rgm.
+    - destruct g; try exact I; (apply rgP_bind; [|intros; exact I]); apply quiet_rgm.
+      + apply cc_grant_quiet. + apply code_grant_quiet. + apply refresh_grant_quiet. + apply ciba_grant_quiet.
+    - apply quiet_rgm, introspect_quiet. - apply quiet_rgm, revoke_quiet. - apply quiet_rgm, userinfo_quiet.
+    - apply quiet_rgm, token_info_quiet. - apply quiet_rgm, token_info_req_quiet.
+    - apply init_back_auth_rgm. - apply quiet_rgm, notify_success_quiet. - apply quiet_rgm, notify_failure_quiet.
+    - exact I.
+  Qed.
+
+  Definition minv (st : state) : Prop := invP sess_ok (s_store st).
+  Lemma step_minv st n o : minv st -> minv (fst (step w st n o)).
+  Proof.
+    intros H. unfold step, step_with, minv in *.
+    assert (G : forall p : prog obs, rgm p ->
+                invP sess_ok (s_store (fst (let '(sto, x) := run_seq p (s_store st) in (mkState sto (s_now st), x))))).
+    { intros p Hp. pose proof (run_seq_invP sess_ok p (s_store st) Hp H) as R.
+      destruct (run_seq p (s_store st)) as [sto x]. exact R. }
+    destruct o; try (apply G; exact (handler_rgm _ _ _)).
+    cbn. exact H.
+  Qed.
+  (* in every reachable state of every history the code_challenge_method recorded in a stored session is
+     absent or an enabled method *)
+  Theorem stored_methods_listed dyn ops s :
+    In s (st_asess (s_store (fst (run_from w (init_state dyn) 0 ops)))) -> method_listed (w_cfg w) (a_params s).
+  Proof.
+    revert s. change (minv (fst (run_from w (init_state dyn) 0 ops))).
+    apply run_from_inv; [intros; apply step_minv; auto|]. intros s [].
+  Qed.
+End Handlers.
+
+(* hence, over ALL histories, with no assumption on the stored session: a code exchange completes only
+   under an enabled = advertised method *)
+Theorem exchange_under_advertised_method_all iss mtls p opts cfg statics : build p opts = Some cfg ->
+  forall dyn ops n now r,
+  let st := s_store (fst (run_from (mkWorld cfg statics) (init_state dyn) 0 ops)) in
+  is_tokens (snd (run_seq (code_grant (mkWorld cfg statics) n now r) st)) = true ->
+  exists s, find (fun s => ideq (a_code s) (t_code r)) (st_asess st) = Some s /\
+    (cf_pkce_enabled cfg = true -> pk_is_empty (p_challenge (a_params s)) = false ->
+       exists m, advertised_in iss mtls cfg MCodeChallengeMethods m = true /\ mem m (cf_pkce_methods cfg) = true /\
+                 is_pkce_valid (t_verifier r) (p_challenge (a_params s)) m = true /\
+                 pkce_enabled_match cfg (a_params s) (t_verifier r) = true).
+Proof.
+  intros built dyn ops n now r st H.
+  destruct (exchange_under_enabled_method p opts cfg statics built n now r st H) as [s [EF K]].
+  exists s. split; [exact EF|]. intros EN EC.
+  assert (ML : method_listed cfg (a_params s)).
+  { apply find_some in EF as [IN _]. exact (stored_methods_listed (mkWorld cfg statics) dyn ops s IN). }
+  destruct (K EN EC ML) as [L [D M]]. exists (pkce_effective_method cfg (a_params s)).
+  rewrite (pkce_method_advertised iss mtls _ _ _ _ built). auto.
+Qed.
